@@ -9,6 +9,7 @@ from __future__ import annotations
 
 import os
 import re
+from copy import copy
 from typing import TYPE_CHECKING, Any, cast
 
 from exabgp.bgp.message.refresh import RouteRefresh
@@ -554,7 +555,15 @@ class Configuration(_Configuration):
         # Add the changes prior to the reload to the neighbor to correct handling of deleted routes
         for neighbor in self.neighbors:
             if neighbor in self._previous_neighbors:
-                self.neighbors[neighbor].previous = self._previous_neighbors[neighbor]
+                previous = self._previous_neighbors[neighbor]
+                if previous.previous is not None:
+                    # no session has acted on the previous reload yet (the peer has not come up since):
+                    # the routes that reload removed are still owed their withdraws
+                    merged = copy(previous)
+                    merged.routes = previous.previous.routes + previous.routes
+                    merged.previous = None
+                    previous = merged
+                self.neighbors[neighbor].previous = previous
 
         self._previous_neighbors = {}
         self._previous_processes = {}
